@@ -5,6 +5,7 @@ import (
 	"math"
 	"sort"
 	"strings"
+	"time"
 
 	"github.com/cespare/xxhash/v2"
 
@@ -44,6 +45,10 @@ type am struct {
 	Tags   []kv // in the order sent, duplicates allowed
 	Fields []sfield
 	Comp   *compound
+	// Wire, when set, is the line-protocol text of this metric (influx format only): used where
+	// one key on the wire stands for two abstract fields (a field key without type suffix), see
+	// escape_test.go. The abstract content above is what the line is documented to mean.
+	Wire string
 }
 
 // reqCtx = what the HTTP handler (app/broker/api/ingest/write.go) derives from the request.
@@ -302,6 +307,31 @@ func jumpHash(key uint64, buckets int32) int32 {
 	return int32(b)
 }
 
+// ---- calendar family of a timestamp ----------------------------------------------------------
+
+// familyOf is the calendar family a row belongs to, written from the documentation of the
+// storage layout (pkg/timeutil/interval.go: an interval below 5 minutes is of type "day" - one
+// segment per day, one family per HOUR; from 5 minutes to below 1 hour type "month" - one
+// segment per month, one family per DAY; from 1 hour type "year" - one segment per year, one
+// family per calendar MONTH), in the zone the harness runs lindb in (UTC). It returns the first
+// and the last millisecond of the family. intervalMs is the database's smallest interval.
+func familyOf(intervalMs, ts int64) (first, last int64) {
+	t := time.UnixMilli(ts).UTC()
+	var a, b time.Time
+	switch {
+	case intervalMs >= msHour:
+		a = time.Date(t.Year(), t.Month(), 1, 0, 0, 0, 0, time.UTC)
+		b = a.AddDate(0, 1, 0)
+	case intervalMs >= 5*msMinute:
+		a = time.Date(t.Year(), t.Month(), t.Day(), 0, 0, 0, 0, time.UTC)
+		b = a.AddDate(0, 0, 1)
+	default:
+		a = time.Date(t.Year(), t.Month(), t.Day(), t.Hour(), 0, 0, 0, time.UTC)
+		b = a.Add(time.Hour)
+	}
+	return a.UnixMilli(), b.UnixMilli() - 1
+}
+
 // ---- influx expressibility ------------------------------------------------------------------
 
 // influxTypeOf is the documented mapping of the line-protocol parser: the field key's suffix
@@ -319,8 +349,53 @@ func influxTypeOf(name string) int {
 	return -1
 }
 
-func influxSafe(s string) bool {
-	return !strings.ContainsAny(s, "\\\n\r\"")
+// Special characters of the line protocol per token kind (InfluxDB line protocol reference,
+// "Special characters"): in a measurement comma and space must be escaped with a backslash, in
+// tag keys, tag values and field keys comma, equals sign and space.
+const (
+	lpNameSpecials = ", "
+	lpKeySpecials  = ", ="
+)
+
+// oddBackslashRuns looks at the LITERAL token s (what the client means) and reports the two
+// shapes that lindb's dialect of the line protocol cannot carry, given the token kind's special
+// characters:
+//
+//   - before: a run of an odd number of backslashes directly before a special character. The
+//     client writes the special character as "\c", which gives an even run on the wire; lindb
+//     (walkToUnescapedChar: "a separator is escaped iff an odd number of backslashes precedes it",
+//     see its doc comment and the in-tree case `cpu\\\,\ a`) reads an even run as literal
+//     backslashes followed by a real separator. A backslash itself cannot be escaped (the
+//     documentation says it need not be; "\\\\" stays two backslashes in lindb and in InfluxDB).
+//   - atEnd: an odd run at the end of the token; the structural separator that follows the
+//     token on the wire would be read as escaped.
+//
+// Both are limits of the dialect (InfluxDB has the same one for a trailing backslash), not of
+// C16: such tokens are not generated for the influx format (counted as out of scope). Every
+// other placement of backslashes is expressible: even runs (2, 4) before a special character
+// or at the end of a token, any run before a non-special character.
+func oddBackslashRuns(s, specials string) (before, atEnd bool) {
+	run := 0
+	for i := 0; i < len(s); i++ {
+		if s[i] == '\\' {
+			run++
+			continue
+		}
+		if run%2 == 1 && strings.IndexByte(specials, s[i]) >= 0 {
+			before = true
+		}
+		run = 0
+	}
+	return before, run%2 == 1
+}
+
+// influxSafe: the token can be written on one line and survives lindb's dialect.
+func influxSafe(s, specials string) bool {
+	if strings.ContainsAny(s, "\n\r\"") {
+		return false
+	}
+	before, atEnd := oddBackslashRuns(s, specials)
+	return !before && !atEnd
 }
 
 // expressible tells whether metric m can be written in format f so that the format's
@@ -340,14 +415,14 @@ func expressible(m *am, rc *reqCtx, f format) bool {
 		if lim(rc.Limits.MaxTagsPerMetric, len(canonTags(m.Tags))+len(rc.Enriched)) {
 			return false // no tag-count check on this path (noted in the report)
 		}
-		if m.Name != "" && (m.Name[0] == '#' || !influxSafe(m.Name)) {
+		if m.Name != "" && (m.Name[0] == '#' || !influxSafe(m.Name, lpNameSpecials)) {
 			return false
 		}
 		if m.Name == "" && len(m.Tags) == 0 {
 			return false // a line starting with a blank is trimmed by the chunk reader: other meaning
 		}
 		for _, t := range m.Tags {
-			if !influxSafe(t.K) || !influxSafe(t.V) {
+			if !influxSafe(t.K, lpKeySpecials) || !influxSafe(t.V, lpKeySpecials) {
 				return false
 			}
 		}
@@ -355,7 +430,7 @@ func expressible(m *am, rc *reqCtx, f format) bool {
 			return false
 		}
 		for _, fd := range m.Fields {
-			if fd.Name == "" || strings.TrimSpace(fd.Name) == "" || !influxSafe(fd.Name) {
+			if fd.Name == "" || strings.TrimSpace(fd.Name) == "" || !influxSafe(fd.Name, lpKeySpecials) {
 				return false
 			}
 			if influxTypeOf(fd.Name) != fd.Type {
